@@ -11,6 +11,8 @@ BUILT = {
          "trusted: simnet interpreter, SimCrypto, application model; stream totals <= 200 kB, finite fault prefixes"),
  "C02": ("simnet", "liveness as bounded-time safety: finite generated fault prefix then a clean link; event-driven workloads must complete (handshake, every planned stream read and Finished) within a computed virtual-time bound; wedge signatures for known findings",
          "trusted: harness as above; infinite adversarial loss schedules are out of reach; idle timeout disabled"),
+ "C04": ("simnet", "an attacker at the link acts on copies of genuine datagrams (replays at any later time incl. the connection-creating Initial, bit flips, truncation/extension, cross-connection CID splices, reset-token suffixes: exact / other CID / one-bit miss); per-frame-type receive counters never exceed the frames contained in distinct genuine packets delivered; twin run without the attacker gives the same final outcome (and the same destinations) ; Reset only for the exact token",
+         "trusted: unforgeability of packet protection (ring/rustls or SimCrypto's keyed tag) is assumed; frame accounting needs SimCrypto; timing-level equality is not asserted (extra poll instants legitimately perturb pacing)"),
  "C05": ("simnet", "independent credit ledger kept by the wire observer for the receiver of the credit; every STREAM/RESET_STREAM leaving a sender is checked against stream, connection and stream-count limits that actually reached it; send_window bound via probe",
          "trusted: independent wire decoder (wire.rs); SimCrypto only (frames visible); 0-RTT limits are C17's"),
  "C08": ("simnet", "connections terminated at a generated instant by close() of either/both applications, a path blackhole, a stateless reset with the exact token, or nothing (idle timeout / keep-alive); exactly-once ConnectionLost with an explained reason, none for a local close, CONNECTION_CLOSE in the first transmit after close(), Drained within 3 PTO exactly once, endpoint forgets the connection and its CIDs, idle-timeout bounds, keep-alive holds",
